@@ -1,6 +1,7 @@
 package props
 
 import (
+	"encoding/json"
 	"fmt"
 	"os"
 	"sort"
@@ -26,6 +27,7 @@ type c12Op struct {
 	typ     string         // new-set-get, marshal, get-type, has-type
 	vals    map[string]any // new-set-get, marshal
 	ts      *gen.TypeSpec
+	resMeta string // unmarshal-*: the payload's resource-level meta ("" if none)
 }
 
 func (o c12Op) String() string {
@@ -41,7 +43,7 @@ func (o c12Op) String() string {
 	return fmt.Sprintf("%s(%q)", o.kind, o.typ)
 }
 
-var c12Kinds = []string{"parse-url", "unmarshal-document", "unmarshal-partial", "new-set-get", "marshal", "has-type", "get-type", "check", "rels"}
+var c12Kinds = []string{"parse-url", "unmarshal-document", "unmarshal-partial", "new-set-get", "new-direct", "marshal", "has-type", "get-type", "check", "rels"}
 
 func drawOp(t *rapid.T, ss *gen.SchemaSpec) c12Op {
 	kind := rapid.SampledFrom(c12Kinds).Draw(t, "op")
@@ -61,9 +63,11 @@ func drawOp(t *rapid.T, ss *gen.SchemaSpec) c12Op {
 	case "unmarshal-document":
 		pc := gen.ResourcePayload(t, ts, gen.PayloadOpts{Canonical: true, AllFieldsOften: true})
 		op.payload = []byte(`{"data":` + pc.Text + `,"meta":{"k":1}}`)
+		op.resMeta = pc.ResMeta
 	case "unmarshal-partial":
 		pc := gen.ResourcePayload(t, ts, gen.PayloadOpts{Canonical: true})
 		op.payload = []byte(pc.Text)
+		op.resMeta = pc.ResMeta
 	case "new-set-get", "marshal":
 		op.vals = gen.FillResource(t, gen.NewResource(ts), ts, "v")
 	case "has-type", "get-type":
@@ -77,7 +81,15 @@ func drawOp(t *rapid.T, ss *gen.SchemaSpec) c12Op {
 
 // runOp executes the operation against the shared schema and returns a digest
 // of its result that does not depend on anything but the inputs.
-func runOp(schema *jsonapi.Schema, ss *gen.SchemaSpec, op c12Op) string {
+func runOp(schema *jsonapi.Schema, ss *gen.SchemaSpec, op c12Op, held *[]c12Held) string {
+	hold := func(res jsonapi.Resource, digest string) string {
+		if held != nil {
+			*held = append(*held, c12Held{res, digest, op.String()})
+		}
+
+		return digest
+	}
+
 	switch op.kind {
 	case "parse-url":
 		u, err := jsonapi.NewURLFromRaw(schema, op.raw)
@@ -97,14 +109,25 @@ func runOp(schema *jsonapi.Schema, ss *gen.SchemaSpec, op c12Op) string {
 			return "no data"
 		}
 
-		return "doc " + oracle.SnapshotResource(res, true)
+		return hold(res, "doc "+c12Digest(res))
 	case "unmarshal-partial":
 		res, err := jsonapi.UnmarshalPartialResource(op.payload, schema)
 		if err != nil {
 			return "error"
 		}
 
-		return "partial " + oracle.SnapshotResource(res, true)
+		return hold(res, "partial "+c12Digest(res))
+	case "new-direct":
+		// New on the schema's own element (not on a copy from GetType).
+		// Only New itself is called: a soft resource created this way is a
+		// view on the schema's type by design.
+		for i := range schema.Types {
+			if schema.Types[i].Name == op.typ {
+				return fmt.Sprintf("new-direct %v", schema.Types[i].New() != nil)
+			}
+		}
+
+		return "new-direct: no such type"
 	case "new-set-get":
 		typ := schema.GetType(op.typ)
 		res := typ.New()
@@ -152,6 +175,75 @@ func runOp(schema *jsonapi.Schema, ss *gen.SchemaSpec, op c12Op) string {
 	return "?"
 }
 
+// c12Held is a result that a goroutine keeps until the end of its list.
+type c12Held struct {
+	res    jsonapi.Resource
+	digest string
+	op     string
+}
+
+// c12Digest renders an unmarshaled resource: type, ID, fields and the
+// resource-level meta.
+func c12Digest(res jsonapi.Resource) string {
+	d := oracle.SnapshotResource(res, true)
+
+	if m, ok := res.(interface{ Meta() jsonapi.Meta }); ok {
+		if mm := m.Meta(); len(mm) > 0 {
+			return d + " meta=" + gen.ShowJSONish(map[string]any(mm))
+		}
+	}
+
+	return d + " meta="
+}
+
+// c12StillHeld re-reads the results kept by one goroutine (or by the
+// sequential run): a result belongs to the request that produced it, whatever
+// other requests did since.
+func c12StillHeld(held []c12Held) string {
+	for _, h := range held {
+		now := ""
+
+		switch {
+		case strings.HasPrefix(h.digest, "doc "):
+			now = "doc " + c12Digest(h.res)
+		case strings.HasPrefix(h.digest, "partial "):
+			now = "partial " + c12Digest(h.res)
+		}
+
+		if now != h.digest {
+			return fmt.Sprintf("the result of %s changed after it was returned\nthen: %s\nnow:  %s", h.op, h.digest, now)
+		}
+	}
+
+	return ""
+}
+
+// c12MetaOK checks the resource-level meta of an unmarshal result against the
+// request's own payload.
+func c12MetaOK(op c12Op, digest string) string {
+	if op.kind != "unmarshal-document" && op.kind != "unmarshal-partial" || digest == "error" || digest == "no data" {
+		return ""
+	}
+
+	want := ""
+
+	if op.resMeta != "" {
+		var m map[string]any
+
+		_ = json.Unmarshal([]byte(op.resMeta), &m)
+		want = gen.ShowJSONish(m)
+	}
+
+	// Whether an entry point carries the resource-level meta over is not
+	// C12's subject (partial unmarshaling does not); a meta that is not the
+	// request's own is: it came from another request.
+	if !strings.HasSuffix(digest, " meta="+want) && !strings.HasSuffix(digest, " meta=") {
+		return fmt.Sprintf("%s: the result's resource meta is not from the request's own payload (%q): %s", op, op.resMeta, digest)
+	}
+
+	return ""
+}
+
 func c12Schema(t *rapid.T) *gen.SchemaSpec {
 	o := gen.SchemaOpts{MinTypes: 2, MaxTypes: 3, MaxAttrs: 4, MaxRelEdges: 5, AllKindsChance: 0, OddRelKeys: true, OddCardinality: true}
 
@@ -174,6 +266,7 @@ func TestC12Sequential(t *testing.T) {
 		n := rapid.IntRange(1, 12).Draw(t, "nops")
 		kinds := map[string]bool{}
 		descs := []string{}
+		held := []c12Held{}
 
 		for i := 0; i < n; i++ {
 			op := drawOp(t, ss)
@@ -182,8 +275,8 @@ func TestC12Sequential(t *testing.T) {
 			var d1, d2 string
 
 			if p := oracle.Try(func() {
-				d1 = runOp(ss.Schema, ss, op)
-				d2 = runOp(ss.Schema, ss, op)
+				d1 = runOp(ss.Schema, ss, op, &held)
+				d2 = runOp(ss.Schema, ss, op, &held)
 			}); p != nil {
 				t.Fatalf("C12 violated: %s %s\nschema: %s", op, p, ss)
 			}
@@ -194,6 +287,14 @@ func TestC12Sequential(t *testing.T) {
 
 			if d1 != d2 {
 				t.Fatalf("C12 violated: %s gives two different results on the same schema\n1: %s\n2: %s", op, d1, d2)
+			}
+
+			if msg := c12MetaOK(op, d1); msg != "" {
+				t.Fatalf("C12 violated: %s\nschema: %s", msg, ss)
+			}
+
+			if msg := c12StillHeld(held); msg != "" {
+				t.Fatalf("C12 violated: %s\nschema: %s", msg, ss)
 			}
 
 			kinds[op.kind] = true
@@ -262,6 +363,7 @@ func TestC12Concurrent(t *testing.T) {
 		// Concurrent run.
 		got := make([][]string, g)
 		panics := make([]string, g)
+		stale := make([]string, g)
 
 		var (
 			wg    sync.WaitGroup
@@ -281,9 +383,15 @@ func TestC12Concurrent(t *testing.T) {
 
 				<-start
 
+				held := []c12Held{}
+
 				for _, op := range lists[i] {
-					got[i] = append(got[i], runOp(ss.Schema, ss, op))
+					got[i] = append(got[i], runOp(ss.Schema, ss, op, &held))
 				}
+
+				// Read everything this goroutine was given once more, while
+				// the others may still be at work.
+				stale[i] = c12StillHeld(held)
 			}(i)
 		}
 
@@ -296,7 +404,7 @@ func TestC12Concurrent(t *testing.T) {
 		for i := range lists {
 			for _, op := range lists[i] {
 				var d string
-				if p := oracle.Try(func() { d = runOp(twin.Schema, twin, op) }); p != nil {
+				if p := oracle.Try(func() { d = runOp(twin.Schema, twin, op, nil) }); p != nil {
 					t.Fatalf("C12 violated: %s %s", op, p)
 				}
 
@@ -309,7 +417,15 @@ func TestC12Concurrent(t *testing.T) {
 				t.Fatalf("C12 violated: goroutine %d panicked: %s\ncase: %s", i, panics[i], desc.String())
 			}
 
+			if stale[i] != "" {
+				t.Fatalf("C12 violated: goroutine %d: %s\ncase: %s", i, stale[i], desc.String())
+			}
+
 			for j := range lists[i] {
+				if msg := c12MetaOK(lists[i][j], got[i][j]); msg != "" {
+					t.Fatalf("C12 violated: goroutine %d: %s\ncase: %s", i, msg, desc.String())
+				}
+
 				if got[i][j] != want[i][j] {
 					t.Fatalf("C12 violated: goroutine %d, %s: concurrent result differs from the sequential one\nconcurrent: %s\nsequential: %s\ncase: %s",
 						i, lists[i][j], got[i][j], want[i][j], desc.String())
